@@ -60,3 +60,19 @@ CHECKS["C04"] = {
     "outside": "tables longer than the bound; more than two control-plane nodes",
     "assumptions": PFCP_ASSUME + ["representation invariant I1-I4 of DESIGN.md 6/C04 assumed on the pre-state and re-established after each operation"],
 }
+
+CHECKS["C12"] = {
+    "jobs": {
+        "quick": [{"pkg": "internal/pfcp", "entries": ["ZZ_C12_*"], "witnesses": 3, "max_paths": 100000}],
+        "thorough": [{"pkg": "internal/pfcp", "entries": ["ZZ_C12_*"], "witnesses": 6, "max_paths": 2000000, "budget_s": 1500}],
+    },
+    "covers": {"all": ["ZZ_C12_CreatePDR:C12.createpdr.done", "ZZ_C12_UpdatePDR:C12.updatepdr.hit", "ZZ_C12_RemovePDR:C12.removepdr.hit",
+                       "ZZ_C12_CreateURR:C12.createurr.done", "ZZ_C12_RemoveURR:C12.removeurr.hit", "ZZ_C12_QueryURR:C12.queryurr.hit",
+                       "ZZ_C12_Delete:C12.delete.done", "ZZ_C12_History:C12.hist.done"]},
+    "bounds": {
+        "quick": "one-step induction: every reference state over <= 2 PDRs and <= 2 URR ids (existence and association subsets arbitrary, refcounts per invariant) x one Session Modification/Deletion request carrying one of Create/Update/Remove PDR, Create/Remove/Query URR with symbolic ids and symbolic URR lists of <= 2 entries (repeats and unknown ids included)",
+        "thorough": "same with <= 3 URR ids (the third may be dangling: named by PDRs without existing)",
+    },
+    "outside": "more than 2 PDRs / 3 URRs; several rule IEs in one request; Create PDR/URR naming an id that already exists (stated assumption); data-plane faults (those are C01)",
+    "assumptions": PFCP_ASSUME + ["model data plane: a successful RemoveURR/QueryURR returns exactly one report for that URR (go-gtp5gnl contract)"],
+}
